@@ -140,6 +140,15 @@ func (g *DocGen) Schema(depth int) S {
 				s["minimum"] = -1e308
 			}
 		}
+	case "boolean":
+		if g.Unusual && g.p(0.3) {
+			// "type" written as a list: several types, or none at all (legal; such a schema admits no typed value)
+			if g.p(0.5) {
+				s["type"] = Arr()
+			} else {
+				s["type"] = Arr("boolean", "string")
+			}
+		}
 	case "array":
 		s["items"] = g.Schema(depth - 1)
 		if g.p(0.3) {
@@ -426,6 +435,12 @@ func (g *DocGen) Doc() S {
 		d["servers"] = Arr(S{"url": "https://api.example.com/base"})
 	case 2:
 		d["servers"] = Arr(S{"url": "https://{env}.example.com:{port}/{base}", "variables": S{"env": S{"default": "prod", "enum": Arr("prod", "dev")}, "port": S{"default": "8443"}, "base": S{"default": "v2"}}})
+	case 3:
+		// several servers whose URL templates carry different numbers of variables
+		d["servers"] = Arr(
+			S{"url": "https://static.example.org/{root}", "variables": S{"root": S{"default": "api"}}},
+			S{"url": "https://{region}.example.net/{tenant}/{version}", "variables": S{"region": S{"default": "eu"}, "tenant": S{"default": "acme"}, "version": S{"default": "v3"}}},
+			S{"url": "https://plain.example.org"})
 	}
 	return d
 }
